@@ -213,9 +213,7 @@ def export_c17(ctx, cfgnames, num, tag, **budgets):
     open(os.path.join(d, "trace.ndjson"), "w").write('{"ev":"none"}\n')
     cst = consts("c17", cfgnames, MaxHist=600, **budgets)
     mod, cfg = vlib.write_model(d, TRACE, "B_sim", cst, init="GenInit", next_="GenNext", invariants=["Emit17"])
-    r = vlib.tlc(ctx, d, mod, cfg, workers=1, timeout=1200, heap="4g", simulate="num=%d" % num, depth=700)
-    if r.violated:
-        raise vlib.Infra("TLC simulation export failed:\n" + vlib.tail_errors(r.out)[:3000])
+    r = tlc_simulate(ctx, d, mod, cfg, num, 700)
     seen, out = set(), []
     for o in tlc_lines(r.out, "HIST"):
         key = json.dumps(o, sort_keys=True)
@@ -227,6 +225,32 @@ def export_c17(ctx, cfgnames, num, tag, **budgets):
         raise vlib.Infra("TLC simulation exported no history")
     ctx.stage("export-" + tag, histories=len(out), wall=round(r.wall, 1))
     return out
+
+
+def tlc_simulate(ctx, d, module, cfg, num, depth, timeout=1200):
+    """`tlc -simulate num=N`: vlib.tlc only accepts the model-checking success message, so simulation runs are
+    started here (same JVM flags); success = TLC reports the number of generated traces and no error."""
+    import shutil
+    import subprocess
+    import tempfile
+    import time
+    meta = tempfile.mkdtemp(prefix="meta-", dir=d)
+    cmd = ["java", "-XX:+UseParallelGC", "-Xmx4g", "-Xss256m", "-cp", vlib.TLA_CP, "tlc2.TLC", "-metadir", meta, "-workers", "1",
+           "-config", cfg, "-simulate", "num=%d" % num, "-depth", str(depth), "-seed", str(ctx.seed), module]
+    env = dict(os.environ)
+    env.pop("JAVA_TOOL_OPTIONS", None)
+    t = time.time()
+    try:
+        p = subprocess.run(cmd, cwd=d, stdout=subprocess.PIPE, stderr=subprocess.STDOUT, text=True, timeout=timeout, env=env)
+    except subprocess.TimeoutExpired:
+        raise vlib.Infra("TLC simulation timeout after %ds" % timeout)
+    finally:
+        shutil.rmtree(meta, ignore_errors=True)
+    r = vlib.parse_tlc(p.stdout)
+    r.wall = time.time() - t
+    if r.violated or "Error:" in p.stdout or not re.search(r"(\d+) traces generated", p.stdout):
+        raise vlib.Infra("TLC simulation failed:\n" + vlib.tail_errors(p.stdout)[:3000])
+    return r
 
 
 def act(i, a, t, p=0, e=""):
